@@ -254,8 +254,9 @@ def run(ctx) -> None:
         "Structural clauses of the stage-weight normalisation and of the progress computation: the given weights are kept only "
         "behind a sum test and a sign test; the replacement covers every stage, its integer numerators are (n-1)*q and S-(n-1)*q "
         "for one scale constant S used consistently; the per-stage fraction counts a subset of the list whose length is the "
-        "denominator; the total is a weighted sum over two stage sets selected by complementary predicates. The floating-point "
-        "arithmetic itself (what int(w*1000) does to a given decimal) is NOT decided.")
+        "denominator; the total is a weighted sum over two stage sets selected by complementary predicates and read as one "
+        "snapshot; the sum test looks at the parsed weights themselves under a tolerance finer than the fallback resolution. The "
+        "floating-point arithmetic itself (the size of the tolerance) is NOT decided.")
     ctx.rule("C20.R1-nonnegative-guard", "both normalisation sites replace the given weights whenever one of them is negative")
     ctx.rule("C20.R2-replacement-total", "the replacement assigns a weight to every stage index (the same count the weights were read for)")
     ctx.rule("C20.R3-exact-complement", "in FlowIR.inject_default_values the replaced weights have the integer numerators q = int(S/n) for "
